@@ -549,7 +549,13 @@ class Plugin:
                 if self.parallel and executor is not None:
                     new_future = executor.submit(self.do_compute, chunk_i=chunk_i, **inputs_merged)
                     pending_futures.append(new_future)
-                    pending_futures = [f for f in pending_futures if not f.done()]
+                    # Keep failed computations: cleanup has to know that not everything
+                    # it waits for was actually done
+                    pending_futures = [
+                        f
+                        for f in pending_futures
+                        if not f.done() or (not f.cancelled() and f.exception() is not None)
+                    ]
                     yield new_future
                 else:
                     yield from self._iter_compute(chunk_i=chunk_i, **inputs_merged)
